@@ -1,8 +1,9 @@
 /-
   Props/C06.lean — C06: immutable bindings cannot be modified.
 
-  About Model/Mut.lean (transcription of the mutability checks after the fixes F4/F25), tied to the type checker
-  on every run by checks/c06.py (exhaustive product roots × paths × forms × contexts compiled with `ferret -t`).
+  About Model/Mut.lean (transcription of the mutability checks after the fixes F4/F25 and the repair of references
+  held in fields and elements), tied to the type checker on every run by checks/c06.py (exhaustive product
+  roots × paths × forms × contexts compiled with `ferret -t`).
 -/
 import FerretVerif.Model.Mut
 
@@ -14,36 +15,72 @@ theorem root_ofPath (r : Root) (p : List Seg) : (Chain.ofPath r p).root = r := b
   | nil => rfl
   | cons s p ih => cases s <;> simpa [Chain.ofPath, Chain.root] using ih
 
-theorem immRef_ofPath (r : Root) (p : List Seg) : (Chain.ofPath r p).immRefInChain = r.immRef := by
-  induction p with
-  | nil => rfl
-  | cons s p ih => cases s <;> simpa [Chain.ofPath, Chain.immRefInChain] using ih
-
 theorem borrowable_ofPath (r : Root) (p : List Seg) : (Chain.ofPath r p).borrowable = !r.constOrReadonly := by
   induction p with
   | nil => rfl
   | cons s p ih => cases s <;> simpa [Chain.ofPath, Chain.borrowable] using ih
 
-/-- the mutability check of a place depends only on the ROOT binding, whatever the access path
-    (fields, indices, parentheses, to any depth) -/
-theorem check_depends_on_root_only (r : Root) (p : List Seg) :
-    checkMutabilityBlocks (Chain.ofPath r p) = r.immutable := by
-  simp [checkMutabilityBlocks, root_ofPath, immRef_ofPath, Root.immutable]
+/-- the walk of `findImmutableRefInChain` plus the callers' own check of the target's type finds an immutable reference
+    exactly when the chain goes through one — at the root, at the place itself, or at any step in between -/
+theorem immRef_exact (c : Chain) : (c.immRefInChain || c.ty == .imm) = c.throughImm := by
+  induction c with
+  | ident r => simp [Chain.immRefInChain, Chain.ty, Chain.throughImm, Root.ty]; cases r <;> simp [Root.immRef, Root.isRef]
+  | sel t x ih => simp only [Chain.immRefInChain, Chain.ty, Chain.throughImm, ih]; cases t <;> cases x.throughImm <;> rfl
+  | index t x ih => simp only [Chain.immRefInChain, Chain.ty, Chain.throughImm, ih]; cases t <;> cases x.throughImm <;> rfl
+  | paren x ih => simpa [Chain.immRefInChain, Chain.ty, Chain.throughImm] using ih
 
-/-- C06: every form of mutation on a place rooted in an immutable binding — a const, the index variable of a
-    two-variable for loop, a catch error variable, an immutable reference (parameter, receiver or local) — is
-    rejected, for EVERY access path and EVERY mutation form -/
-theorem immutable_never_mutated (r : Root) (h : r.immutable = true) (path : List Seg) (f : Form) :
+/-- the references the walk itself reports are among those the chain goes through -/
+theorem immRef_sound (c : Chain) : c.immRefInChain = true → c.throughImm = true := by
+  intro h; rw [← immRef_exact]; simp [h]
+
+/-- C06: every form of mutation on a place reached through an immutable binding — rooted in a const, the index variable of a
+    two-variable for loop or a catch error variable, or going through an immutable reference held by a parameter, a receiver,
+    a local, a struct field or an array element, at the root, in the middle or at the end of the access path — is rejected,
+    for EVERY access path and EVERY mutation form -/
+theorem immutable_never_mutated (r : Root) (path : List Seg) (h : mustReject r path = true) (f : Form) :
     implRejects r path f = true := by
-  cases f <;> simp [implRejects, check_depends_on_root_only, h]
+  unfold mustReject at h
+  have key : r.constOrReadonly = true ∨ ((Chain.ofPath r path).immRefInChain || (Chain.ofPath r path).ty == .imm) = true := by
+    rw [immRef_exact]; simpa using h
+  rcases key with hc | hi
+  · cases f <;> simp [implRejects, checkMutabilityBlocks, root_ofPath, hc]
+  · have hi' : (Chain.ofPath r path).immRefInChain = true ∨ ((Chain.ofPath r path).ty == .imm) = true := by simpa using hi
+    rcases hi' with h1 | h2
+    · cases f <;> simp [implRejects, checkMutabilityBlocks, h1]
+    · have h3 : (Chain.ofPath r path).ty = .imm := by simpa using h2
+      cases f <;> simp [implRejects, h3]
 
-/-- no mis-rejection: on a mutable root the only thing refused is taking `&'` of a variable that already is a
-    reference ("reference of a reference") -/
-theorem mutable_not_rejected (r : Root) (h : r.immutable = false) (path : List Seg) (f : Form)
-    (hr : implRejects r path f = true) : (f = .mutBorrow ∨ f = .passMut) ∧ path = [] ∧ r.isRef = true := by
+/-- the special case the property names first: the check depends only on the root when the path goes through values only -/
+theorem immutable_root_never_mutated (r : Root) (h : r.immutable = true) (path : List Seg) (f : Form) :
+    implRejects r path f = true := by
+  apply immutable_never_mutated
+  unfold mustReject
+  have : r.constOrReadonly = true ∨ r.immRef = true := by simpa [Root.immutable] using h
+  rcases this with h1 | h2
+  · simp [h1]
+  · have : (Chain.ofPath r path).throughImm = true := by
+      induction path with
+      | nil => simpa [Chain.ofPath, Chain.throughImm] using h2
+      | cons s p ih => cases s <;> simp [Chain.ofPath, Chain.throughImm, ih]
+    simp [this]
+
+/-- no mis-rejection: a place that is not reached through an immutable binding is refused only for taking `&'` of something
+    that already is a reference ("reference of a reference") -/
+theorem mutable_not_rejected (r : Root) (path : List Seg) (h : mustReject r path = false) (f : Form)
+    (hr : implRejects r path f = true) : (f = .mutBorrow ∨ f = .passMut) ∧ (Chain.ofPath r path).ty = .mut := by
+  unfold mustReject at h
   have hc : r.constOrReadonly = false := by
-    cases r <;> simp_all [Root.immutable, Root.constOrReadonly, Root.immRef]
-  cases f <;> simp_all [implRejects, check_depends_on_root_only, borrowable_ofPath]
+    cases hh : r.constOrReadonly <;> simp [hh] at h ⊢
+  have ht : (Chain.ofPath r path).throughImm = false := by
+    cases hh : (Chain.ofPath r path).throughImm <;> simp [hh] at h ⊢
+  rw [← immRef_exact] at ht
+  have h1 : (Chain.ofPath r path).immRefInChain = false := by
+    cases hh : (Chain.ofPath r path).immRefInChain <;> simp [hh] at ht ⊢
+  have h2 : ((Chain.ofPath r path).ty == .imm) = false := by
+    cases hh : ((Chain.ofPath r path).ty == .imm) <;> simp [hh, h1] at ht ⊢
+  have h2' : (Chain.ofPath r path).ty ≠ .imm := by simpa using h2
+  cases f <;> simp [implRejects, checkMutabilityBlocks, root_ofPath, hc, h1, h2, borrowable_ofPath] at hr
+  all_goals (refine ⟨by simp, ?_⟩; cases hty : (Chain.ofPath r path).ty <;> simp_all)
 
 /-- the check as originally shipped looked at the root only when the target was a bare identifier:
     a field of a const was assignable (finding F4) -/
@@ -54,8 +91,20 @@ theorem old_const_field_witness :
     checkMutabilityOld (Chain.ofPath .constV [.fld]) = false ∧ Root.immutable .constV = true
       ∧ checkMutabilityBlocks (Chain.ofPath .constV [.fld]) = true := by decide
 
--- non-vacuity: immutable and mutable roots exist, with a deep path
-example : Root.immutable .recvRef = true ∧ implRejects .recvRef [.fld, .idx, .paren, .fld] .incDec = true := by decide
-example : Root.immutable .letV = false ∧ implRejects .letV [.fld, .idx] .mutBorrow = false := by decide
+/-- the walk as shipped before the repair of references held in fields / elements looked at the root identifier only:
+    `rs[0].X = 9` with `rs: [2]&P` was accepted -/
+def immRefRootOnly : Chain → Bool
+  | .ident r => r.immRef
+  | .sel _ x | .index _ x | .paren x => immRefRootOnly x
+
+theorem old_ref_in_element_witness :
+    immRefRootOnly (Chain.ofPath .letV [.fld, .idx .imm]) = false ∧ mustReject .letV [.fld, .idx .imm] = true
+      ∧ implRejects .letV [.fld, .idx .imm] .assign = true := by decide
+
+-- non-vacuity: immutable and mutable places exist, with deep paths
+example : mustReject .recvRef [.fld, .idx, .paren, .fld] = true ∧ implRejects .recvRef [.fld, .idx, .paren, .fld] .incDec = true := by decide
+example : mustReject .letV [.fld, .idx] = false ∧ implRejects .letV [.fld, .idx] .mutBorrow = false := by decide
+example : mustReject .letV [.fld .imm] = true ∧ implRejects .letV [.fld .imm] .callMutMethod = true := by decide
+example : mustReject .letV [.fld, .fld .mut] = false ∧ implRejects .letV [.fld, .fld .mut] .assign = false := by decide
 
 end FerretVerif.C06
